@@ -83,8 +83,8 @@ PROPS = {
     ),
     'C06': dict(
         standins=['expand_message_hash_to_field'],
-        units_quick=['h2c'], units_thorough=['h2c', 'cofactor', 'curve'], timeout=1800,
-        claim="PARTIAL (composition only): hash_to_curve(msg,dst) = map2_to_curve(u[0],u[1]) with u = hash_to_field(msg,dst,2) and encode_to_curve = "
+        units_quick=['h2c', 'sswu', 'sswuhelp', 'symx:iso', 'cofactor'], units_thorough=['h2c', 'sswu', 'sswuhelp', 'symx:iso', 'cofactor', 'curve', 'okm', 'consts'], timeout=1800,
+        claim="PARTIAL (composition; the parts it composes are run by this check as well: SSWU C15, isogeny C16, cofactor clearing C17): hash_to_curve(msg,dst) = map2_to_curve(u[0],u[1]) with u = hash_to_field(msg,dst,2) and encode_to_curve = "
               "map_to_curve(hash_to_field(msg,dst,1)[0]): element count, indices and which map are verified on the real generic bodies; the result is "
               "a function of (msg, dst) only and is annihilated by r. RFC conformance of the stages is the conjunction of C13, C15, C16, C17, C14 under their scopes.",
         not_covered=["expand_message_xmd / expand_message_xof and the hash primitives (C13 scope, D3)", "SSWU (C15) and isogeny (C16) internals"],
